@@ -138,7 +138,11 @@ Definition escape_step (e : ascii) (r : string) : result (list titem * nat) :=
               else if all_chars is_dig name then
                 if all_chars is_zero name then OK ([TWhole], 2 + String.length name)
                 else Error re_error                                   (* invalid group reference *)
-              else if is_identifier name then Error ErrIndex          (* unknown group name *)
+              else if is_identifier name then
+                (* unknown group name -> IndexError; but the tokenizer reads one token ahead, so a lone
+                   backslash right behind '>' at the very end of the template is reported first *)
+                if String.eqb (drop (S (String.length name)) r2) (String bs EmptyString)
+                then Error re_error else Error ErrIndex
               else Error re_error                                     (* bad character in group name *)
           end
         else Error re_error                                           (* missing < *)
@@ -522,7 +526,7 @@ Definition run_call (s : sexp) : sexp :=
   end.
 
 (* expression trees: (name id) (leaf t) (attr e a) (call f (args)) (node tag (children)) ;
-   result: the same with (cpp rname nargs (args)) for replaced calls *)
+   result: the same with (cpp result-name (method-object receiver)|() (args)) for replaced calls *)
 Fixpoint d_qexpr (fuel : nat) (s : sexp) : option qexpr :=
   match fuel with
   | O => None
@@ -549,7 +553,7 @@ Fixpoint s_qexpr (e : qexpr) : sexp :=
   | QAttr v a => SList [SAtom "attr"; s_qexpr v; SAtom a]
   | QCall f args => SList [SAtom "call"; s_qexpr f; SList (map s_qexpr args)]
   | QCpp cv args =>
-      SList [SAtom "cpp"; SAtom (cv_rname cv);
+      SList [SAtom "cpp"; SAtom (cv_result cv);
              match cv_instance cv with Some (mo, r) => SList [SAtom mo; SAtom r] | None => SList [] end;
              SList (map s_qexpr args)]
   | QNode t ch => SList [SAtom "node"; SAtom t; SList (map s_qexpr ch)]
